@@ -218,7 +218,17 @@ def run_second_launch(ctx, rng):
     w = {"kind": "second-launch"}
     try:
         nsecond = rng.choice([1, 2])
-        p1 = subprocess.Popen([PYTHON, str(jobdir / f"{name}.py")], env=env, stdout=subprocess.DEVNULL, stderr=subprocess.DEVNULL, cwd="/")
+        env1 = dict(env)
+        # own random stream: the other choices of the case stay what they were
+        slow_end = random.Random(x * 7919 + nsecond).random() < 0.6
+        if slow_end:
+            # directed preemption of the first process between the end of the body and the success marker: whoever is
+            # let through the run lock in that window must not find the marker missing (seed C05-e)
+            env1["PYTHONPATH"] = f"{VERIF}/lib/inject:{REPO}/src"
+            env1["VERIF_DELAY_AT"] = "experimaestro/run.py::sys.exit(0)::400;;experimaestro/run.py::self.donepath.touch()::400"
+            w["slow_end"] = True
+            ctx.count("second_launch_slow_end")
+        p1 = subprocess.Popen([PYTHON, str(jobdir / f"{name}.py")], env=env1, stdout=subprocess.DEVNULL, stderr=subprocess.DEVNULL, cwd="/")
         procs.append(p1)
         log = jobdir / "body.log"
         t0 = time.time()
